@@ -153,6 +153,18 @@ def judge(case, ctx, prefix='C01'):
     getters = {'phi': sol.get_potential, 'V': sol.get_voltage, 'I': sol.get_current, 'P': sol.get_power}
     bad = netsolve.compare(refd, getters, ctx, prefix)
     netsolve.certificate(refd, getters, ctx, prefix)
+    # the same network solved with user-supplied node / source numberings (the solver's mapper extension point): same physics
+    from CircuitCalculator.Network.NodalAnalysis.bias_point_analysis import NodalAnalysisBiasPointSolution
+    from .. import mappers
+    which = ctx.rng.choice(['node_mapper', 'voltage_source_mapper', 'current_source_mapper', 'all'])
+    cm = mappers.custom_numbering(ctx.rng.getrandbits(30))
+    kw = cm if which == 'all' else {which: cm[which]}
+    sol2 = call(NodalAnalysisBiasPointSolution, net, **kw)
+    ctx.count('custom_numberings_solved')
+    if raised(sol2):
+        ctx.violation(f'{prefix}/custom-numbering/{which}/solver-raised/{sol2.key}', f'solving with a permuted {which} raised {sol2.text}', {})
+    else:
+        netsolve.compare(refd, {'phi': sol2.get_potential, 'V': sol2.get_voltage, 'I': sol2.get_current, 'P': sol2.get_power}, ctx, f'{prefix}/custom-numbering/{which}')
     # open_circuit_voltage for a few node pairs
     ns = netdesc.nodes(desc)
     pairs = list(itertools.permutations(ns, 2))
